@@ -93,7 +93,7 @@ fn any_sign_opt(pend: &[u8; PEND_MAX], with_inv: bool, pend_mode: u8, allow_page
     let width: u32 = kani::any();
     let height: u32 = kani::any();
     let have_page: bool = allow_page && kani::any();
-    let mut pages = Vec::new();
+    let mut pages = Vec::with_capacity(2); // room for the page a flush may add: no reallocation of the page vector
     if have_page {
         if with_inv {
             // a stored page has the sign's dimensions; keep it small so that it can be allocated concretely
@@ -196,8 +196,13 @@ fn c12_bus_never_panics_2() {
     let pend1: [u8; PEND_MAX] = kani::any();
     let pend2: [u8; PEND_MAX] = kani::any();
     let arr: [u8; DATA_MAX] = kani::any();
-    let mut bus = VirtualSignBus { signs: vec![any_sign(&pend1, false), any_sign(&pend2, false)] };
+    // bus-level composition: the signs' buffers are kept concrete in length (0 and 16 bytes) and data chunks are 0 or 16
+    // bytes long; the per-sign behaviour for all buffer/chunk lengths is the subject of c12_step_never_panics
+    let mut bus = VirtualSignBus { signs: vec![any_sign_opt(&pend1, false, 0, false), any_sign_opt(&pend2, false, 1, false)] };
     let m = any_message(&arr);
+    if let Message::SendData(_, d) = &m {
+        kani::assume(d.get().len() == 0 || d.get().len() == 16);
+    }
     let r = bus.process_message(m);
     match &r {
         Ok(x) => kani::cover!(x.is_some(), "cov_reply"),
@@ -525,11 +530,15 @@ fn c14_bus_isolation_2() {
     let pend1: [u8; PEND_MAX] = kani::any();
     let pend2: [u8; PEND_MAX] = kani::any();
     let arr: [u8; DATA_MAX] = kani::any();
-    let s1 = any_sign(&pend1, true);
-    let s2 = any_sign(&pend2, true);
+    // buffers concrete in length (0 / 16 bytes), chunks of 0 or 16 bytes: see c12_bus_never_panics_2
+    let s1 = any_sign_opt(&pend1, true, 0, false);
+    let s2 = any_sign_opt(&pend2, true, 1, false);
     kani::assume(s1.address != s2.address);
     let (b1, b2) = (snap(&s1), snap(&s2));
     let m = any_message(&arr);
+    if let Message::SendData(_, d) = &m {
+        kani::assume(d.get().len() == 0 || d.get().len() == 16);
+    }
     let target: Option<u16> = match &m {
         Message::Hello(a) | Message::QueryState(a) | Message::Goodbye(a) | Message::PixelsComplete(a) => Some(a.0),
         Message::RequestOperation(a, _) | Message::AckOperation(a, _) | Message::ReportState(a, _) => Some(a.0),
@@ -569,6 +578,7 @@ fn c14_bus_isolation_2() {
     kani::cover!(target == Some(b2.address) && r.is_some(), "cov_second_sign_replies");
     kani::cover!(target.is_some() && target != Some(b1.address) && target != Some(b2.address), "cov_absent_address");
     kani::cover!(target.is_none() && b1.state == PIX_PROG && b2.state == PIX_PROG, "cov_both_mid_transfer");
+    kani::cover!(target.is_none() && b1.state == CFG_PROG && b2.state == PIX_PROG && a1.chunks == 1 && a2.n_pages == 1, "cov_config_and_pixels_at_once");
     core::mem::forget(r);
 }
 
@@ -594,45 +604,11 @@ fn c19_virtual_sign_derives_dimensions() {
     kani::cover!(sign.width == 160, "cov_160");
 }
 
+
+
 /// Vacuity canary for this package: must FAIL.
 #[kani::proof]
 fn canary_must_fail() {
     let x: u8 = kani::any();
     assert!(x != 7);
-}
-
-// ---- cost experiments (temporary)
-fn exp_step(pend_mode: u8, allow_page: bool, restrict: u8) {
-    let pend: [u8; PEND_MAX] = kani::any();
-    let arr: [u8; DATA_MAX] = kani::any();
-    let mut sign = any_sign_opt(&pend, false, pend_mode, allow_page);
-    let m = any_message(&arr);
-    if restrict == 1 { kani::assume(!matches!(m, Message::SendData(..))); }
-    if restrict == 2 { if let Message::SendData(_, d) = &m { kani::assume(d.get().len() == 16); } }
-    let r = sign.process_message(&m);
-    core::mem::forget(r);
-}
-#[kani::proof] #[kani::unwind(14)] fn exp_a() { exp_step(2, false, 0); }
-#[kani::proof] #[kani::unwind(14)] fn exp_b() { exp_step(1, false, 0); }
-#[kani::proof] #[kani::unwind(14)] fn exp_c() { exp_step(0, false, 0); }
-#[kani::proof] #[kani::unwind(14)] fn exp_d() { exp_step(2, false, 1); }
-#[kani::proof] #[kani::unwind(14)] fn exp_e() { exp_step(1, false, 2); }
-#[kani::proof] #[kani::unwind(14)] fn exp_f() { exp_step(0, true, 1); }
-
-#[kani::proof] #[kani::unwind(14)] fn exp_g() { exp_step(2, true, 0); }
-#[kani::proof] #[kani::unwind(14)] fn exp_h() {
-    let pend: [u8; PEND_MAX] = kani::any();
-    let arr: [u8; DATA_MAX] = kani::any();
-    let mut sign = any_sign_opt(&pend, false, 2, false);
-    let before_state = sign.state;
-    let before_pages = sign.pages.len();
-    let m = any_message(&arr);
-    let is_data = matches!(m, Message::SendData(..));
-    let is_count = matches!(m, Message::DataChunksSent(..));
-    let r = sign.process_message(&m);
-    kani::cover!(is_data && before_state == State::ConfigInProgress && sign.width > 255, "cov_config_width_over_255");
-    kani::cover!(is_data && before_state == State::PixelsInProgress && sign.pages.len() > before_pages, "cov_flush_stored_page");
-    kani::cover!(is_count && before_state == State::PixelsInProgress && sign.state == State::PixelsFailed, "cov_failed");
-    kani::cover!(r.is_some(), "cov_reply");
-    core::mem::forget(r);
 }
